@@ -48,7 +48,9 @@ pub enum AlphaSize {
 
 /// groups of filters that differ in meaning but are easily confused by a lossy rendering or a structural shortcut
 /// (name chains vs joined names, grouping, omitted vs zero slice bounds, index chains vs unions vs longer indices)
-pub const CONFUSABLE: [&[&str]; 8] = [
+pub const CONFUSABLE: [&[&str]; 9] = [
+    // a pattern taken from the document stays a document string whatever route it takes to the function
+    &["match(@,value($..p))", "search(@,value($.q[0:1]))", "match(@,$.p)", "search(@,value($.q[?@]))"],
     // strings are ordered by Unicode scalar value: U+FFFD < U+10000 although its UTF-16 form sorts the other way
     &["@<'\u{10000}'", "@>='\u{fffd}'", "@<=@"],
     &["@==1e19", "@>1e19", "@<2e19", "@>=9223372036854775808.0"],
